@@ -106,7 +106,12 @@ PROPS = {
    "cbor_to_cbor: parser events of any supported item in any spelling fed to the encoder give a valid document with the "
    "same value. Correspondence: op `xcode` (Src.ParseReader(in, Dst.NewVisitor(out)) as in the README) for all 9 pairs, "
    "single documents and streams, random chunkings; oracle: both documents decoded by the specifications.",
-   "Kernel-checked for CBOR->CBOR; the other eight pairs by composed mirrors + correspondence + oracle."),
+   " PropsX.C08: cbor_to_ubjson (valid UBJSON item, read back by the UBJSON reference decoder as the source's value up to the "
+   "documented uint64 > MaxInt64 change, exactly equal otherwise) and cbor_to_json (float-free sources with UTF-8 strings: "
+   "accepted by the RFC 8259 reference decoder with the source's value), by composing the CBOR parser refinement with the "
+   "UBJSON / JSON encoder theorems; chunking: C02 (CBOR parser events do not depend on it).",
+   "Kernel-checked for CBOR->CBOR, CBOR->UBJSON, CBOR->JSON (float-free); the six pairs with UBJSON / JSON as source by composed mirrors + correspondence + oracle.",
+   partial="pairs with a UBJSON or JSON source: need the parser refinement theorems of those formats (in progress)"),
  "C09": P("DESIGN.md 7 C09",
    "Lean 4 proof (contract automaton WF on event trees; CBOR parser; adapters) + WF monitor as oracle on every stream",
    "tree_events_wf (generic), cbor_parser_wf (every accepted supported stream), expand_array_wf / expand_map_wf (all 29 "
